@@ -638,7 +638,7 @@ func (fr *Frame) contractEnv(params []*Val, results []*Val, st, old *State) *Env
 		}
 	}
 	fn := fr.fn
-	env.resolve = func(name string) *CV { return fr.u.v.resolveGlobalName(fn, name, env) }
+	env.resolve = func(name string, cur *Env) *CV { return fr.u.v.resolveGlobalName(fn, name, cur) }
 	return env
 }
 
@@ -1115,11 +1115,11 @@ func (fr *Frame) loopEnv(l *Loop, phis []*ssa.Phi, phiVals map[*ssa.Phi]*Val, st
 		cenv.vars[n] = cvOfVal(v)
 	}
 	base := cenv.resolve
-	cenv.resolve = func(name string) *CV {
-		if v := fr.resolveLocal(name, l.Head, env, st); v != nil {
+	cenv.resolve = func(name string, cur *Env) *CV {
+		if v := fr.resolveLocal(name, l.Head, env, cur.st); v != nil {
 			return v
 		}
-		return base(name)
+		return base(name, cur)
 	}
 	return cenv
 }
